@@ -267,6 +267,8 @@ func hashMap(writer hash.Hash, eps map[string]string) {
 	sort.Strings(keys)
 	for _, ep := range keys {
 		writer.Write([]byte(ep + "=" + eps[ep]))
+		// Terminate each pair, otherwise {"A": "1", "B": "2"} and {"A": "1B=2"} hash the same.
+		writer.Write([]byte{0})
 	}
 }
 
